@@ -27,7 +27,7 @@ type C15Case struct {
 	Kinds    []string `json:"kinds,omitempty"` // L2: "text" | "line" | "block" per piece
 }
 
-var c15Alphabet = []string{"a", "<", ">", " ", "\t", "\r", "\n", "/", "é", "\u00a0", "\u2028", "\v", "\f"}
+var c15Alphabet = []string{"a", "\x00", "<", ">", " ", "\t", "\r", "\n", "/", "é", "\u00a0", "\u2028", "\v", "\f"}
 
 // neighbours: what stands before and after the run inside the template, and what they render to
 var c15Neighbors = []struct{ name, before, after, outBefore, outAfter string }{
